@@ -13,7 +13,7 @@ from simkit import gen, model
 from simkit.harness import HarnessError, World
 from simkit.seam import REAL
 
-TIERS = {"C05": {"quick": 2400, "thorough": 40000}, "C10": {"quick": 2000, "thorough": 40000}}
+TIERS = {"C05": {"quick": 2400, "thorough": 20000}, "C10": {"quick": 2000, "thorough": 16000}}
 LEVEL = {"C05": "exploration", "C10": "exploration"}
 RULE = {
     "C05": "two scenario kinds. checkout: a cache holding several trees, a workspace path, a "
